@@ -4,6 +4,8 @@ Decides the code-shape half of the property:
  (S1) every clock / scope argument that TransactionInner (and its BatchInsertion helper) hands to an op-set query derives from
       `self.scope` — never a literal None, never another clock: an edit inside an isolated transaction that looks the document up
       unscoped sees ops outside the chosen heads;
+ (S1b) no function of transaction::inner reads the document through the public `ReadDoc` methods of `Automerge` (they take no
+      clock and answer at the current heads);
  (S2) `self.scope` is what the transaction was opened with: TransactionInner's constructors store `args.scope`, and
       Automerge::transaction_args sets it to Some(isolation clock) exactly on the arm where isolation heads were given and to None
       otherwise;
@@ -59,7 +61,20 @@ def run(ctx):
             ok = ".scope" in flds and not lit_none and flds <= {".scope", ".inner"}
             ctx.ob("S1", k, ok, t["sp"], "clock argument is self.scope" if ok else
                    "the clock handed to %s does not (only) come from self.scope (fields %s, literal None: %s): inside an isolated transaction this lookup sees the document outside the chosen heads" % (norm_fn(t.get("res") or t.get("fn")).split("::")[-1], sorted(flds), lit_none))
-    ctx.floor("clock arguments passed by TransactionInner / BatchInsertion", n, 11)
+    ctx.floor("clock arguments passed by TransactionInner / BatchInsertion", n, 12)
+    # ---------------- S1b: no read of the document through the unscoped public API from inside a transaction
+    ctx.rule("S1b", "who-may-call: no function of transaction::inner calls an <Automerge as ReadDoc> method (those read at the current heads, ignoring the transaction's scope)")
+    n_fns = 0
+    for p, r in sorted(f.fns.items()):
+        np_ = norm_fn(p)
+        if r["ckey"] != ("automerge", "lib") or not np_.startswith("automerge::transaction::inner::"):
+            continue
+        n_fns += 1
+        bad = [(bi, t) for bi, t in f.calls(r) if "as automerge::read::ReadDoc>::" in (norm_fn(t.get("res") or t.get("fn")) or "") and "automerge::automerge::Automerge as" in (norm_fn(t.get("res") or t.get("fn")) or "")]
+        for k, (bi, t) in util.ordinal_keys(bad, lambda it: "%s|%s" % (np_.split("::{closure")[0], norm_fn(it[1].get("res") or it[1].get("fn")).split("::")[-1])):
+            ctx.ob("S1b", k, False, t["sp"], "the transaction reads the document through ReadDoc::%s, which has no clock: inside an isolated transaction it sees the state at the current heads, not at the chosen heads" % norm_fn(t.get("res") or t.get("fn")).split("::")[-1])
+    ctx.ob("S1b", "transaction::inner|no unscoped ReadDoc call", True, "", "%d functions scanned" % n_fns, nontrivial=False)
+    ctx.floor("functions of transaction::inner scanned for unscoped reads", n_fns, 60)
     # ---------------- S2
     n_ctor = 0
     for p, r in sorted(f.fns.items()):
@@ -128,6 +143,23 @@ def run(ctx):
         ctx.ob("S2", "transaction_args|scope = Some(isolation clock) exactly under isolation", ok_some and ok_none and clk, st["sp"],
                "Some on the isolation arm (from the isolation argument), None otherwise" if ok_some and ok_none and clk else
                "scope assignments: Some under isolation %s, None otherwise %s, clock from the isolation argument %s" % (ok_some, ok_none, clk))
+        # the ids of the new ops continue the whole document's counter, with or without isolation: the op set orders ops by id and a
+        # new local op is placed as the greatest, so a start_op taken from the isolated view collides with ops outside it
+        ctx.rule("S2b", "provenance: TransactionArgs.start_op derives from ChangeGraph::max_op and from nothing that depends on the isolation argument")
+        so2 = rv["o"][rv["fields"].index("start_op")]
+        pv = tb.provenance(so2, through_calls=True)
+        cs = {norm_fn(c) for c in pv.callees()}
+        from_max = "automerge::change_graph::ChangeGraph::max_op" in cs
+        dep_heads = any(i in hp for i, _ in pv.params)
+        # control dependence: no definition feeding start_op sits on an arm of the isolation test
+        arm = False
+        for l in pv.locals:
+            for (db, si, rec) in tb.defs().get(l, []):
+                if bool(some_edges and tb.edges_dominate(some_edges, db)) != bool(none_edges and tb.edges_dominate(none_edges, db)):
+                    arm = True
+        ok = from_max and not dep_heads and not arm
+        ctx.ob("S2b", "transaction_args|start_op continues the document-wide op counter", ok, st["sp"], "max_op() + 1, independent of isolation" if ok else
+               "start_op of a new transaction depends on the isolation heads (from max_op: %s, data from heads: %s, set on an isolation arm: %s): ops of an isolated transaction would reuse counters of ops outside the scope" % (from_max, dep_heads, arm))
     # ---------------- S3 / S4
     C04.run(ctx)
     C07.run(ctx)
